@@ -5,3 +5,4 @@ pub mod props;
 pub mod raw;
 pub mod tree;
 pub mod treegen;
+pub mod dynv;
